@@ -387,3 +387,445 @@ Theorem del_md_idempotent_proof t keys s :
 Proof.
   unfold del_metadata. simpl. destruct (selected s Obs), (selected s Samp); rewrite ?del_axis_idem; reflexivity.
 Qed.
+
+(* ================================================================== mapping files *)
+Definition uq (sq : bool) (x : text) : text := if sq then unquote x else x.
+Definition ws_only (t : text) : Prop := Forall (fun c => is_space c = true) t.
+
+Lemma strip_f_uq sq ss x : strip_f sq ss x = if ss then uq sq x else strip (uq sq x).
+Proof. unfold strip_f, uq. destruct sq; reflexivity. Qed.
+
+Lemma unquote_id t : ~ In QUOTE t -> unquote t = t.
+Proof.
+  unfold unquote. induction t as [|c t IH]; simpl; intros H; [reflexivity|].
+  destruct (c =? QUOTE) eqn:E; [apply Z.eqb_eq in E; subst; exfalso; apply H; left; reflexivity|].
+  simpl. f_equal. apply IH. intros Hin. apply H. right. exact Hin.
+Qed.
+
+Lemma unquote_idem t : unquote (unquote t) = unquote t.
+Proof. unfold unquote. apply filter_idem. Qed.
+
+Lemma uq_idem sq t : uq sq (uq sq t) = uq sq t.
+Proof. destruct sq; [apply unquote_idem|reflexivity]. Qed.
+
+Lemma unquote_app a b : unquote (a ++ b) = unquote a ++ unquote b.
+Proof. unfold unquote. apply filter_app. Qed.
+
+Lemma unquote_join ps : unquote (join TAB ps) = join TAB (map unquote ps).
+Proof.
+  destruct ps as [|p r]; [reflexivity|]. simpl. rewrite unquote_app. f_equal.
+  induction r as [|q r IH]; simpl; [reflexivity|].
+  change (TAB :: q ++ flat_map (fun q0 => TAB :: q0) r) with ([TAB] ++ (q ++ flat_map (fun q0 => TAB :: q0) r)).
+  rewrite !unquote_app, IH. reflexivity.
+Qed.
+
+Lemma uq_join sq ps : uq sq (join TAB ps) = join TAB (map (uq sq) ps).
+Proof. destruct sq; simpl; [apply unquote_join|rewrite map_id; reflexivity]. Qed.
+
+Lemma unquote_notab t : ~ In TAB t -> ~ In TAB (unquote t).
+Proof. unfold unquote. intros H Hin. apply filter_In in Hin. apply H. apply Hin. Qed.
+
+Lemma uq_notab sq t : ~ In TAB t -> ~ In TAB (uq sq t).
+Proof. destruct sq; [apply unquote_notab|trivial]. Qed.
+
+Lemma strip_ws t : ws_only t -> strip t = [].
+Proof.
+  intros H. unfold strip. assert (E : lstrip t = []).
+  { induction H as [|c t Hc Ht IH]; simpl; [reflexivity|]. rewrite Hc. exact IH. }
+  rewrite E. reflexivity.
+Qed.
+
+Lemma ws_unquote t : ws_only t -> unquote t = t.
+Proof.
+  intros H. apply unquote_id. intros Hin. unfold ws_only in H. rewrite Forall_forall in H.
+  specialize (H _ Hin). discriminate.
+Qed.
+
+Definition skipb (sq ss : bool) (line0 : text) : bool :=
+  Metadata.is_nil (strip_f sq ss line0) || (ss && Metadata.is_nil (strip (strip_f sq ss line0))).
+
+Lemma map_step_skip sq ss st l : skipb sq ss l = true -> map_step sq ss st l = st.
+Proof. intros H. unfold map_step. destruct st as [h rows]. unfold skipb in H. cbv zeta. rewrite H. reflexivity. Qed.
+
+Lemma skip_ws sq ss t : ws_only t -> skipb sq ss t = true.
+Proof.
+  intros H. unfold skipb. rewrite strip_f_uq.
+  assert (E : uq sq t = t) by (destruct sq; [apply ws_unquote; exact H|reflexivity]).
+  rewrite E. destruct ss.
+  - rewrite (strip_ws t H). simpl. apply orb_true_r.
+  - rewrite (strip_ws t H). reflexivity.
+Qed.
+
+Lemma lstrip_snoc_keep x c : is_space c = false -> exists y, lstrip (x ++ [c]) = y ++ [c].
+Proof.
+  intros H. induction x as [|a x IH]; simpl.
+  - rewrite H. exists []. reflexivity.
+  - destruct (is_space a); [exact IH|]. exists (a :: x). reflexivity.
+Qed.
+
+Lemma strip_cons_keep c t : is_space c = false -> exists t', strip (c :: t) = c :: t'.
+Proof.
+  intros H. unfold strip. rewrite lstrip_cons_nospace by exact H. unfold rstrip. simpl.
+  destruct (lstrip_snoc_keep (rev t) c H) as [y E]. rewrite E. rewrite rev_app_distr. simpl. eauto.
+Qed.
+
+Lemma hd_join d p r : p <> [] -> hd 0 (join d (p :: r)) = hd 0 p.
+Proof. destruct p; [congruence|reflexivity]. Qed.
+
+(* a line that starts and ends with a non-blank character is what strip_f makes of it, up to
+   the removal of quotes *)
+Lemma strip_f_line sq ss ps :
+  ps <> [] ->
+  (exists c r, uq sq (hd [] ps) = c :: r /\ is_space c = false) ->
+  (uq sq (last ps []) <> [] /\ is_space (last (uq sq (last ps [])) 0) = false) ->
+  strip_f sq ss (join TAB ps) = join TAB (map (uq sq) ps).
+Proof.
+  intros Hne [c [r [Hc1 Hc2]]] [Hl1 Hl2]. rewrite strip_f_uq, uq_join. destruct ss; [reflexivity|].
+  apply strip_edges.
+  - destruct ps as [|p ps]; [congruence|]. simpl in *. rewrite Hc1. discriminate.
+  - split.
+    + destruct ps as [|p ps]; [congruence|]. cbn [map]. rewrite hd_join by (simpl in Hc1; rewrite Hc1; discriminate).
+      simpl in Hc1. rewrite Hc1. exact Hc2.
+    + destruct (snoc_exists ps Hne) as [ps' [x E]]. subst ps. rewrite last_snoc in Hl1, Hl2.
+      rewrite map_app. cbn [map]. rewrite last_join_snoc by exact Hl1. exact Hl2.
+Qed.
+
+Definition row_wf (sq : bool) (cells : list text) : Prop :=
+  cells <> [] /\ Forall (fun x => ~ In TAB x) cells
+  /\ (exists c r, uq sq (hd [] cells) = c :: r /\ is_space c = false /\ c <> HASH)
+  /\ (uq sq (last cells []) <> [] /\ is_space (last (uq sq (last cells [])) 0) = false).
+Definition item_wf (sq : bool) (it : mitem) : Prop :=
+  match it with MComment _ => True | MBlank b => ws_only b | MRow cells => row_wf sq cells end.
+Definition name_wf (n : text) : Prop := n <> [] /\ ~ In TAB n /\ ~ In QUOTE n /\ edges_ok n.
+(* the side conditions of the row grammar *)
+Definition mfile_wf (sq ss : bool) (override : list text) (g : mfile) : Prop :=
+  Forall ws_only (f_pre g)
+  /\ f_names g <> [] /\ Forall name_wf (f_names g)
+  /\ Forall (item_wf sq) (f_items g)
+  /\ rows_of (f_items g) <> []
+  /\ NoDup (map (fun cells => strip_f sq ss (hd [] cells)) (rows_of (f_items g)))
+  /\ NoDup (tl (if Metadata.is_nil override then f_names g else override)).
+
+Lemma map_step_row sq ss H rows cells : H <> [] -> row_wf sq cells ->
+  map_step sq ss (H, rows) (join TAB cells) = (H, rows ++ [pad (length H) (map (strip_f sq ss) cells)]).
+Proof.
+  intros HH (Hne & Hnt & (c & r & Hc1 & Hc2 & Hc3) & Hl).
+  unfold map_step. cbv zeta.
+  rewrite (strip_f_line sq ss cells Hne (ex_intro _ c (ex_intro _ r (conj Hc1 Hc2))) Hl).
+  assert (E : exists t, join TAB (map (uq sq) cells) = c :: t).
+  { destruct cells as [|p ps]; [congruence|]. simpl in Hc1. cbn [map]. simpl. rewrite Hc1. simpl. eauto. }
+  destruct E as [t Et]. rewrite Et.
+  assert (Hs : strip (c :: t) <> []) by (apply strip_cons_nospace_ne; exact Hc2).
+  replace (Metadata.is_nil (c :: t)) with false by reflexivity.
+  replace (ss && Metadata.is_nil (strip (c :: t))) with false
+    by (destruct (strip (c :: t)); [congruence|destruct ss; reflexivity]).
+  cbn [orb starts_hash]. replace (c =? HASH) with false by (symmetry; apply Z.eqb_neq; exact Hc3).
+  rewrite <- Et. f_equal. f_equal. f_equal. f_equal.
+  rewrite split_on_join.
+  - rewrite map_map. apply map_ext. intros x. rewrite !strip_f_uq, uq_idem. reflexivity.
+  - apply Forall_forall. intros x Hx. apply in_map_iff in Hx. destruct Hx as [y [E Hy]]. subst.
+    rewrite Forall_forall in Hnt. apply uq_notab. apply Hnt. exact Hy.
+  - destruct cells; [congruence|discriminate].
+Qed.
+
+Lemma map_step_comment sq ss H rows t : H <> [] ->
+  map_step sq ss (H, rows) (HASH :: t) = (H, rows).
+Proof.
+  intros HH. unfold map_step. cbv zeta.
+  assert (E : exists t', strip_f sq ss (HASH :: t) = HASH :: t').
+  { rewrite strip_f_uq.
+    assert (Eu : uq sq (HASH :: t) = HASH :: uq sq t) by (destruct sq; reflexivity).
+    rewrite Eu. destruct ss; [eauto|]. apply strip_cons_keep. reflexivity. }
+  destruct E as [t' Et]. rewrite Et.
+  assert (Hs : strip (HASH :: t') <> []) by (apply strip_cons_nospace_ne; reflexivity).
+  replace (Metadata.is_nil (HASH :: t')) with false by reflexivity.
+  replace (ss && Metadata.is_nil (strip (HASH :: t'))) with false
+    by (destruct (strip (HASH :: t')); [congruence|destruct ss; reflexivity]).
+  cbn [orb starts_hash]. rewrite Z.eqb_refl. destruct H; [congruence|reflexivity].
+Qed.
+
+Lemma fold_items sq ss H items : H <> [] -> Forall (item_wf sq) items -> forall rows,
+  fold_left (map_step sq ss) (map render_item items) (H, rows)
+  = (H, rows ++ map (fun cells => pad (length H) (map (strip_f sq ss) cells)) (rows_of items)).
+Proof.
+  intros HH F. induction F as [|it items Hit Hitems IH]; intros rows; [simpl; rewrite app_nil_r; reflexivity|].
+  cbn [map fold_left]. destruct it as [t|b|cells]; cbn [render_item rows_of item_wf] in *.
+  - rewrite map_step_comment by exact HH. apply IH.
+  - rewrite map_step_skip by (apply skip_ws; exact Hit). apply IH.
+  - rewrite map_step_row by assumption. rewrite IH. cbn [map]. rewrite <- app_assoc. reflexivity.
+Qed.
+
+Lemma fold_pre sq ss pre st : Forall ws_only pre -> fold_left (map_step sq ss) pre st = st.
+Proof.
+  induction 1 as [|l pre Hl Hp IH]; simpl; [reflexivity|]. rewrite map_step_skip by (apply skip_ws; exact Hl). exact IH.
+Qed.
+
+Lemma names_join_clean names : names <> [] -> Forall name_wf names ->
+  ~ In QUOTE (join TAB names) /\ strip (join TAB names) = join TAB names
+  /\ split_on TAB (join TAB names) = names
+  /\ is_space (last (join TAB names) 0) = false.
+Proof.
+  intros Hne F.
+  assert (Hq : ~ In QUOTE (join TAB names)).
+  { destruct names as [|n r]; [congruence|]. simpl. intros Hin. apply in_app_or in Hin.
+    inversion F as [|? ? Hn Hr]; subst. destruct Hin as [Hin|Hin]; [apply Hn; exact Hin|].
+    clear Hn F Hne. induction Hr as [|q r Hq Hr IH]; simpl in Hin; [contradiction|].
+    destruct Hin as [Hin|Hin]; [discriminate|]. apply in_app_or in Hin. destruct Hin as [Hin|Hin]; [apply Hq; exact Hin|auto]. }
+  assert (Hlast : is_space (last (join TAB names) 0) = false).
+  { destruct (snoc_exists names Hne) as [ps [x E]]. subst names.
+    assert (Hx : name_wf x) by (rewrite Forall_forall in F; apply F; apply in_or_app; right; left; reflexivity).
+    destruct Hx as (A & _ & _ & _ & B). rewrite last_join_snoc by exact A. exact B. }
+  split; [exact Hq|]. split; [|split; [|exact Hlast]].
+  - apply strip_edges.
+    + destruct names as [|n r]; [congruence|]. inversion F as [|? ? Hn _]; subst. destruct Hn as (A & _). destruct n; [congruence|discriminate].
+    + split; [|exact Hlast]. destruct names as [|n r]; [congruence|]. inversion F as [|? ? Hn _]; subst.
+      destruct Hn as (A & _ & _ & B & _). rewrite hd_join by exact A. exact B.
+  - apply split_on_join; [|exact Hne]. eapply Forall_impl; [|exact F]. intros n Hn. apply Hn.
+Qed.
+
+Lemma map_step_header sq ss override rows names : names <> [] -> Forall name_wf names ->
+  map_step sq ss (override, rows) (HASH :: join TAB names)
+  = (if Metadata.is_nil override then names else override, rows).
+Proof.
+  intros Hne F. destruct (names_join_clean names Hne F) as (Hq & Hs & Hsp & Hl).
+  unfold map_step. cbv zeta.
+  assert (E : strip_f sq ss (HASH :: join TAB names) = HASH :: join TAB names).
+  { rewrite strip_f_uq.
+    assert (Eu : uq sq (HASH :: join TAB names) = HASH :: join TAB names).
+    { destruct sq; [|reflexivity]. unfold uq. apply unquote_id. intros [H|H]; [discriminate|contradiction]. }
+    rewrite Eu. destruct ss; [reflexivity|]. apply strip_edges; [discriminate|]. split; [reflexivity|].
+    rewrite last_cons_ne; [exact Hl|]. destruct names as [|n r]; [congruence|].
+    inversion F as [|? ? Hn _]; subst. destruct Hn as (A & _). destruct n; [congruence|discriminate]. }
+  rewrite E.
+  assert (Hs2 : strip (HASH :: join TAB names) <> []) by (apply strip_cons_nospace_ne; reflexivity).
+  replace (Metadata.is_nil (HASH :: join TAB names)) with false by reflexivity.
+  replace (ss && Metadata.is_nil (strip (HASH :: join TAB names))) with false
+    by (destruct (strip (HASH :: join TAB names)); [congruence|destruct ss; reflexivity]).
+  cbn [orb starts_hash tl]. rewrite Z.eqb_refl. rewrite Hs, Hsp. destruct override; reflexivity.
+Qed.
+
+Lemma aset_notin acc k v : ~ In k (map fst acc) -> aset acc k v = acc ++ [(k, v)].
+Proof.
+  induction acc as [|[k' v'] r IH]; simpl; intros H; [reflexivity|].
+  destruct (text_eqb k k') eqn:E; [apply text_eqb_eq in E; subst; exfalso; apply H; left; reflexivity|].
+  f_equal. apply IH. intros Hin. apply H. right. exact Hin.
+Qed.
+
+Section RowDict.
+  Variable conv : Z -> text -> option Tree.
+  Lemma row_dict_combine o cols : NoDup cols -> forall vals acc,
+    (forall k, In k cols -> ~ In k (map fst acc)) ->
+    row_dict conv o cols vals acc
+    = acc ++ map (fun kv => (fst kv, process_col conv o (fst kv) (snd kv))) (combine cols vals).
+  Proof.
+    induction 1 as [|k cols Hk Hnd IH]; intros vals acc Hacc; simpl; [rewrite app_nil_r; reflexivity|].
+    destruct vals as [|v vals]; [rewrite app_nil_r; reflexivity|].
+    rewrite IH.
+    - rewrite aset_notin by (apply Hacc; left; reflexivity). rewrite <- app_assoc. reflexivity.
+    - intros k2 Hk2. rewrite aset_notin by (apply Hacc; left; reflexivity). rewrite map_app. simpl.
+      intros Hin. apply in_app_or in Hin. destruct Hin as [Hin|[Hin|[]]].
+      + apply (Hacc k2 (or_intror Hk2)). exact Hin.
+      + subst. contradiction.
+  Qed.
+
+  (* ---- a file printed from the row grammar parses to the relation its rows describe ---- *)
+  Theorem mapping_parse_proof sq ss override o g : mfile_wf sq ss override g ->
+    parse_mapping conv sq ss override o (render g) = ROk (relation conv sq ss override o g).
+  Proof.
+    intros (Hpre & Hnn & Hnames & Hitems & Hrows & Hids & Hcols).
+    unfold parse_mapping, render. rewrite fold_left_app. rewrite (fold_pre sq ss _ _ Hpre).
+    cbn [fold_left]. rewrite (map_step_header sq ss override [] _ Hnn Hnames).
+    unfold relation.
+    remember (if Metadata.is_nil override then f_names g else override) as H eqn:EH0.
+    assert (HH : H <> []).
+    { rewrite EH0. destruct override; [exact Hnn|discriminate]. }
+    rewrite (fold_items sq ss H _ HH Hitems). cbn [app].
+    destruct H as [|h0 Htl]; [congruence|]. cbn [Metadata.is_nil].
+    set (rows := map (fun cells => pad (length (h0 :: Htl)) (map (strip_f sq ss) cells)) (rows_of (f_items g))).
+    assert (Hr : Metadata.is_nil rows = false).
+    { unfold rows. destruct (rows_of (f_items g)); [congruence|reflexivity]. }
+    rewrite Hr.
+    assert (Hrw : Forall (fun cells => cells <> []) (rows_of (f_items g))).
+    { clear - Hitems. induction Hitems as [|it items Hit _ IH]; simpl; [constructor|].
+      destruct it; simpl in *; try exact IH. constructor; [apply Hit|exact IH]. }
+    assert (Hhd : map (fun r => hd [] r) rows = map (fun cells => strip_f sq ss (hd [] cells)) (rows_of (f_items g))).
+    { unfold rows. rewrite map_map. apply map_ext_in. intros cells Hin. rewrite Forall_forall in Hrw.
+      specialize (Hrw cells Hin). destruct cells; [exfalso; apply Hrw; reflexivity|reflexivity]. }
+    rewrite Hhd. apply tdup_false_NoDup in Hids. rewrite Hids.
+    unfold rows. rewrite map_map. f_equal. apply map_ext_in.
+    intros cells Hin. rewrite Forall_forall in Hrw. specialize (Hrw cells Hin).
+    f_equal.
+    - destruct cells; [exfalso; apply Hrw; reflexivity|reflexivity].
+    - cbn [tl]. rewrite row_dict_combine; [reflexivity|exact Hcols|intros k _ []].
+  Qed.
+End RowDict.
+
+(* a quoted, space-padded cell is read as its text by the default strip_f *)
+Lemma lstrip_ws_app p x : ws_only p -> lstrip (p ++ x) = lstrip x.
+Proof. induction 1 as [|c p Hc Hp IH]; simpl; [reflexivity|]. rewrite Hc. exact IH. Qed.
+
+Lemma rstrip_ws_app x p : ws_only p -> rstrip (x ++ p) = rstrip x.
+Proof.
+  intros H. unfold rstrip. rewrite rev_app_distr. rewrite lstrip_ws_app; [reflexivity|].
+  unfold ws_only in *. apply Forall_rev. exact H.
+Qed.
+
+Lemma quoted_cell_value_proof pl pr t :
+  ws_only pl -> ws_only pr -> ~ In QUOTE t -> (t = [] \/ edges_ok t) ->
+  strip_f true false (pl ++ [QUOTE] ++ t ++ [QUOTE] ++ pr) = t.
+Proof.
+  intros Hl Hr Hq Ht. unfold strip_f. rewrite !unquote_app.
+  rewrite (ws_unquote pl Hl), (ws_unquote pr Hr), (unquote_id t Hq).
+  change (unquote [QUOTE]) with (@nil Z). cbn [app].
+  unfold strip. rewrite lstrip_ws_app by exact Hl.
+  destruct Ht as [Ht|Ht].
+  - subst t. cbn [app]. change (rstrip (lstrip pr) = []). fold (strip pr). apply strip_ws. exact Hr.
+  - destruct t as [|c t']; [cbn [app]; change (rstrip (lstrip pr) = []); fold (strip pr); apply strip_ws; exact Hr|].
+    destruct Ht as [H1 H2]. simpl in H1. cbn [app lstrip]. rewrite H1.
+    change (c :: t' ++ pr) with ((c :: t') ++ pr). rewrite rstrip_ws_app by exact Hr.
+    destruct (snoc_exists (c :: t')) as [y [x E]]; [discriminate|]. rewrite E in *. rewrite last_snoc in H2.
+    apply rstrip_snoc_nospace. exact H2.
+Qed.
+
+(* the add-metadata command with one well-formed sample mapping file *)
+Lemma cli_add_sample_proof conv t o hs g :
+  mfile_wf true false hs g ->
+  cli_add conv t (Some (render g)) None o hs []
+  = ROk (add_metadata t (relation conv true false hs o g) Samp).
+Proof.
+  intros W. unfold cli_add. rewrite (mapping_parse_proof conv true false hs o g W).
+  destruct W as (_ & _ & _ & _ & Hrows & _).
+  unfold relation. destruct (rows_of (f_items g)); [congruence|reflexivity].
+Qed.
+
+(* ------------------------------------------------------------------ decidable forms of the hypotheses *)
+Definition ws_onlyb (t : text) : bool := forallb is_space t.
+Definition name_wfb (n : text) : bool :=
+  negb (Metadata.is_nil n) && notinb TAB n && notinb QUOTE n && edges_okb n.
+Definition row_wfb (sq : bool) (cells : list text) : bool :=
+  negb (Metadata.is_nil cells) && forallb (notinb TAB) cells
+  && match uq sq (hd [] cells) with c :: _ => negb (is_space c) && negb (c =? HASH) | [] => false end
+  && negb (Metadata.is_nil (uq sq (last cells []))) && negb (is_space (last (uq sq (last cells [])) 0)).
+Definition item_wfb (sq : bool) (it : mitem) : bool :=
+  match it with MComment _ => true | MBlank b => ws_onlyb b | MRow cells => row_wfb sq cells end.
+Definition mfile_wfb (sq ss : bool) (override : list text) (g : mfile) : bool :=
+  forallb ws_onlyb (f_pre g) && negb (Metadata.is_nil (f_names g)) && forallb name_wfb (f_names g)
+  && forallb (item_wfb sq) (f_items g) && negb (Metadata.is_nil (rows_of (f_items g)))
+  && negb (tdup (map (fun cells => strip_f sq ss (hd [] cells)) (rows_of (f_items g))))
+  && negb (tdup (tl (if Metadata.is_nil override then f_names g else override))).
+
+Lemma ws_onlyb_ok t : ws_onlyb t = true -> ws_only t.
+Proof. unfold ws_onlyb, ws_only. apply forallb_Forall. trivial. Qed.
+
+Lemma name_wfb_ok n : name_wfb n = true -> name_wf n.
+Proof.
+  unfold name_wfb, name_wf. rewrite !andb_true_iff, negb_true_iff. intros [[[A B] C] D].
+  split; [destruct n; [discriminate|discriminate]|]. split; [apply notinb_ok; exact B|].
+  split; [apply notinb_ok; exact C|apply edges_okb_ok; exact D].
+Qed.
+
+Lemma row_wfb_ok sq cells : row_wfb sq cells = true -> row_wf sq cells.
+Proof.
+  unfold row_wfb, row_wf. rewrite !andb_true_iff, !negb_true_iff. intros [[[[A B] C] D] E].
+  split; [destruct cells; [discriminate|discriminate]|].
+  split; [eapply forallb_Forall; [|exact B]; apply notinb_ok|].
+  split.
+  - destruct (uq sq (hd [] cells)) as [|c r]; [discriminate|]. apply andb_true_iff in C. destruct C as [C1 C2].
+    exists c, r. apply negb_true_iff in C1. apply negb_true_iff in C2. split; [reflexivity|]. split; [exact C1|apply Z.eqb_neq; exact C2].
+  - split; [destruct (uq sq (last cells [])); [discriminate|discriminate]|exact E].
+Qed.
+
+Lemma mfile_wfb_ok sq ss override g : mfile_wfb sq ss override g = true -> mfile_wf sq ss override g.
+Proof.
+  unfold mfile_wfb, mfile_wf. rewrite !andb_true_iff, !negb_true_iff. intros [[[[[[A B] C] D] E] F] G].
+  split; [eapply forallb_Forall; [|exact A]; apply ws_onlyb_ok|].
+  split; [destruct (f_names g); [discriminate|discriminate]|].
+  split; [eapply forallb_Forall; [|exact C]; apply name_wfb_ok|].
+  split.
+  - eapply forallb_Forall; [|exact D]. intros it H. destruct it; simpl in *; [trivial|apply ws_onlyb_ok; exact H|apply row_wfb_ok; exact H].
+  - split; [destruct (rows_of (f_items g)); [discriminate|discriminate]|].
+    split; apply tdup_false_NoDup; assumption.
+Qed.
+
+Definition md_normb (md : option (list assoc)) (n : nat) : bool :=
+  match md with Some l => Nat.eqb (length l) n && negb (Metadata.is_nil l) | None => true end.
+Definition mwfb (t : mtab) : bool :=
+  negb (tdup (m_oids t)) && negb (tdup (m_sids t))
+  && md_normb (m_omd t) (length (m_oids t)) && md_normb (m_smd t) (length (m_sids t)).
+Definition mapping_wfb (m : mapping) : bool :=
+  negb (tdup (map fst m)) && forallb (fun p => negb (tdup (map fst (snd p)))) m.
+
+Lemma md_normb_ok md n : md_normb md n = true -> md_norm md n.
+Proof.
+  destruct md as [l|]; simpl; [|trivial]. rewrite andb_true_iff, negb_true_iff, Nat.eqb_eq.
+  intros [A B]. split; [exact A|destruct l; [discriminate|discriminate]].
+Qed.
+Lemma mwfb_ok t : mwfb t = true -> mwf t.
+Proof.
+  unfold mwfb, mwf. rewrite !andb_true_iff, !negb_true_iff. intros [[[A B] C] D].
+  split; [apply tdup_false_NoDup; exact A|]. split; [apply tdup_false_NoDup; exact B|].
+  split; apply md_normb_ok; assumption.
+Qed.
+Lemma mapping_wfb_ok m : mapping_wfb m = true -> mapping_wf m.
+Proof.
+  unfold mapping_wfb, mapping_wf. rewrite andb_true_iff, negb_true_iff. intros [A B].
+  split; [apply tdup_false_NoDup; exact A|]. eapply forallb_Forall; [|exact B].
+  intros p H. apply negb_true_iff in H. apply tdup_false_NoDup. exact H.
+Qed.
+
+(* ------------------------------------------------------------------ concrete witnesses *)
+Module MdExamples.
+  Definition s (l : list Z) : text := l.
+  Definition o1 := s [111;49]. Definition o2 := s [111;50]. Definition o3 := s [111;51].
+  Definition s1 := s [115;49]. Definition s2 := s [115;50].
+  Definition zz := s [122;122].
+  Definition kA := s [107;65]. Definition kB := s [107;66]. Definition kN := s [110;101;119].
+  Definition v (n : Z) : Tree := L [I 2; I n].
+  (* 3 x 2 with observation metadata (one entry empty), no sample metadata *)
+  Definition t32 : mtab :=
+    mkM [o1; o2; o3] [s1; s2] [[1; 0]; [0; 0]; [2; 3]]
+        (Some [[(kA, v 1); (kB, v 2)]; []; [(kA, v 3)]]) None.
+  (* o1: overwrite kA, add new; o3: add kB; zz: unknown id *)
+  Definition m1 : mapping := [(o3, [(kB, v 30)]); (zz, [(kA, v 99)]); (o1, [(kA, v 10); (kN, v 11)])].
+  Lemma t32_wf : mwfb t32 = true. Proof. vm_compute. reflexivity. Qed.
+  Lemma m1_wf : mapping_wfb m1 = true. Proof. vm_compute. reflexivity. Qed.
+  Lemma add_obs_runs :
+    add_metadata t32 m1 Obs
+    = mkM [o1; o2; o3] [s1; s2] [[1; 0]; [0; 0]; [2; 3]]
+          (Some [[(kA, v 10); (kB, v 2); (kN, v 11)]; []; [(kA, v 3); (kB, v 30)]]) None.
+  Proof. vm_compute. reflexivity. Qed.
+  (* an axis without metadata: ids outside the mapping get empty entries *)
+  Definition m2 : mapping := [(s2, [(kA, v 5)]); (zz, [(kA, v 6)])].
+  Lemma add_samp_runs : m_smd (add_metadata t32 m2 Samp) = Some [[]; [(kA, v 5)]].
+  Proof. vm_compute. reflexivity. Qed.
+  Lemma add_samp_unknown_only : m_smd (add_metadata t32 [(zz, [(kA, v 6)])] Samp) = None.
+  Proof. vm_compute. reflexivity. Qed.
+  Lemma del_runs :
+    m_omd (del_metadata t32 (Some [kA]) SelWhole) = Some [[(kB, v 2)]; []; []]
+    /\ m_omd (del_metadata t32 (Some [kA; kB]) SelObs) = None
+    /\ m_omd (del_metadata t32 (Some [kA; kB]) SelSamp) = m_omd t32.
+  Proof. vm_compute. repeat split. Qed.
+
+  (* a mapping file of the grammar: a white-space line, the header, a comment, a full row, a
+     blank item, a short row with a quoted id and a padded cell, a row that is too long *)
+  Definition tx (l : list Z) : text := l.
+  Definition n_id := tx [83;97;109;112;108;101;73;68].            (* SampleID *)
+  Definition n_ph := tx [112;72]. Definition n_tax := tx [116;97;120]. Definition n_days := tx [68;97;121;115].
+  Definition gex : mfile :=
+    mkF [[32]] [n_id; n_ph; n_tax; n_days]
+        [MComment [32;99];
+         MRow [[83;49]; [54;46;53]; [107;95;95;65;59;32;112;95;95;66]; [51]];            (* S1 6.5 "k__A; p__B" 3 *)
+         MBlank [];
+         MRow [[34;83;32;50;34]; [32;55;46;50;53]];                                     (* "S 2" " 7.25" *)
+         MRow [[83;51]; [97;98;99]; [120;59;121]; [48;48;55]; [101;120;116;114;97]]].   (* S3 abc x;y 007 extra *)
+  Definition oex : colopts := mkC [n_tax] [] [n_days] [n_ph].
+  Definition conv0 : Z -> text -> option Tree := fun _ _ => None.
+  Lemma gex_wf : mfile_wfb true false [] gex = true. Proof. vm_compute. reflexivity. Qed.
+  Lemma gex_override_wf : mfile_wfb true false [n_id; n_ph] gex = true. Proof. vm_compute. reflexivity. Qed.
+  Lemma gex_parses :
+    parse_mapping conv0 true false [] oex (render gex)
+    = ROk [([83;49], [(n_ph, tStr [54;46;53]); (n_tax, tList [tStr [107;95;95;65]; tStr [112;95;95;66]]); (n_days, tStr [51])]);
+           ([83;32;50], [(n_ph, tStr [55;46;50;53]); (n_tax, tList [tStr []]); (n_days, tStr [])]);
+           ([83;51], [(n_ph, tStr [97;98;99]); (n_tax, tList [tStr [120]; tStr [121]]); (n_days, tStr [48;48;55])])].
+  Proof. vm_compute. reflexivity. Qed.
+End MdExamples.
